@@ -524,6 +524,8 @@ class Check:
                     lvlP = 0 if P == r["top"] else P[len(r["top"]) + 1:].count("/") + 1
                     for n in world["nodes"]:
                         full = {f["fail"]["call"] for f in case["faults"] if f.get("unsearchable_parent") == P and f["fail"]["path"] == n["path"]}
+                        if n["path"] in mutated:
+                            continue  # the child itself raced away (vanished / replaced by a file): nothing left to report
                         if n["type"] == "dir" and n["path"].rsplit("/", 1)[0] == P and (r["maxd"] == 0 or lvlP + 1 < r["maxd"]) and {"stat", "realpath", "opendir"} <= full:
                             name = r["sp"] + n["path"][len(r["top"]):]
                             if res.status != 1 or name.encode("utf-8") not in res.stderr:
